@@ -39,4 +39,10 @@ var BVAxioms = []struct{ Name, Script string }{
 (define-fun bit ((v (_ BitVec 32)) (k (_ BitVec 32))) Bool (= ((_ extract 0 0) (bvashr v k)) #b1))
 (assert (not (= (bit (bvand w (bvnot (bvshl #x00000001 s))) t) (and (not (= s t)) (bit w t)))))
 (check-sat)`},
+	{"bor-add-aligned", `(declare-const x (_ BitVec 64)) (declare-const k (_ BitVec 64))
+(assert (bvule k #x000000000000000f))
+(define-fun c () (_ BitVec 64) (bvshl #x0000000000000001 k))
+(assert (and (bvsge x #x0000000000000000) (bvult x #x4000000000000000) (= (bvurem x (bvshl c #x0000000000000001)) #x0000000000000000)))
+(assert (not (= (bvor x c) (bvadd x c))))
+(check-sat)`},
 }
